@@ -56,7 +56,9 @@ CHECKS["C12"] = dict(
     text="Derived.tla defines z by sign and square from each cell's own bases and the exact "
          "rank < 2 rule; TLC enumerates bags (degenerate tables included) x insertion "
          "configurations and checks the theorem Z2 = Pearson chi-square on every 2x2 state; "
-         "zscores compared by sign and square, pvals against the two-sided normal tail.",
+         "zscores compared by sign and square, pvals against the two-sided normal tail; "
+         "huge tables (batches of 100,000 respondents, bases within 1e-5 of each other) by "
+         "definedness and sign, products compared as base-10^4 limbs (family c12h).",
     ref="DESIGN.md section 4 C12",
     technique="TLA+ survey model + TLC-checked spec theorem, spec-behaviour replay into Cube")
 
@@ -64,7 +66,9 @@ CHECKS["C14"] = dict(
     text="Derived.tla defines scale mean / population variance / median (of the expanded "
          "multiset) / SE^2 over the respondents of a vector that carry a numeric value; "
          "numeric-value assignments from {-1,0,1,2,none} x TLC-enumerated bags (zero-count "
-         "categories anywhere in the value order) x subtotal vectors; slices and strands.",
+         "categories anywhere in the value order) x subtotal vectors; slices and strands; "
+         "every bag of <= 3 batches of 99,999-100,001 respondents for the exactly-50% rule "
+         "of the median on shares within 1e-5 of one half (family c14h).",
     ref="DESIGN.md section 4 C14",
     technique="TLA+ survey model, TLC enumeration, spec-behaviour replay into Cube")
 CHECKS["C15"] = dict(
